@@ -19,7 +19,7 @@ func (c11) CrashIsViolation() bool { return true }
 func (c11) CaseTimeout(string) int { return 40 }
 func (c11) Rule() string {
 	return "hand-built plans (SingleFetch trees over gated fake datasources whose answer is a pure function of datasource id, rendered input and forwarded header) driven through Resolver.ArenaResolveGraphQLResponse. " +
-		"Scripted cases: the 14 scenarios of notes/scenarios.md (1-6 inbound layer, 7-12 the same at the subgraph layer between different client operations containing an identical fetch, 13 keys differing only in variables / headers / datasource id, 14 identical mutations, 15 a participant's own client writer failing - leader's or one follower's, first Write failing or short write, writers failing only on later Writes / Flush - with followers joined before or parked across the leader's finish), " +
+		"Scripted cases: the 14 scenarios of notes/scenarios.md (1-6 inbound layer, 7-12 the same at the subgraph layer between different client operations containing an identical fetch, 13 keys differing only in variables / headers / datasource id, 14 identical mutations, 15 a participant's own client writer failing - leader's or one follower's, first Write failing or short write, writers failing only on later Writes / Flush - with followers joined before or parked across the leader's finish, 16 saturated resolver (MaxConcurrency 1-2, slots held by unrelated parked operations): leader queued for a slot, followers joined, leader or a follower cancelled while queued, slots released), " +
 		"each in its variants (upstream ok / upstream failure rendered / failure as Go error through the rate limiter / leader cancelled) and both release orders, with 2-4 participants from the seed; a yield controller parks the first goroutine(s) reaching the named verif yield point, runs the competing action, releases. " +
 		"Stress cases: rounds of 8-64 goroutines on 1-3 hot keys mixing equal and different variables, headers, operations, mutations, upstream failures client writer failures (8% of the participants) and cancellations (before start, at the participant's own upstream call, timed, at the n-th hit of a yield point) with seeded micro delays at all six C11 yield points and in the upstream. " +
 		"Oracle on every participant of every scenario: outcome is its solo bytes (reference run alone with both de-duplication layers off, cross-checked against the by-construction bytes), or the upstream failure every request with that key hits, or its own context error / the rendering of its own cancellation, or the error of its OWN client writer (each participant's writer error is a distinct value; seeing another participant's is a violation); upstream call accounting per participant (mutations: exactly one own call; a participant answered without an own call needs a call for exactly its key); follower buffers re-hashed after the resolver's arenas were reused; all participants return once gates are open. " +
@@ -48,10 +48,10 @@ func (c11) RequiredCounters(string) []string {
 type scriptCase struct{ num, variant, order int }
 
 var scriptTable = func() []scriptCase {
-	variants := map[int]int{1: 2, 2: 2, 3: 2, 4: 1, 5: 3, 6: 1, 7: 2, 8: 1, 9: 1, 10: 1, 11: 1, 12: 1, 13: 4, 14: 2, 15: 6}
-	orders := map[int]int{1: 2, 2: 2, 3: 2, 4: 2, 5: 2, 6: 2, 7: 2, 8: 2, 9: 2, 10: 2, 11: 2, 12: 2, 13: 1, 14: 1, 15: 2}
+	variants := map[int]int{1: 2, 2: 2, 3: 2, 4: 1, 5: 3, 6: 1, 7: 2, 8: 1, 9: 1, 10: 1, 11: 1, 12: 1, 13: 4, 14: 2, 15: 6, 16: 4}
+	orders := map[int]int{1: 2, 2: 2, 3: 2, 4: 2, 5: 2, 6: 2, 7: 2, 8: 2, 9: 2, 10: 2, 11: 2, 12: 2, 13: 1, 14: 1, 15: 2, 16: 2}
 	var t []scriptCase
-	for n := 1; n <= 15; n++ {
+	for n := 1; n <= 16; n++ {
 		for v := 0; v < variants[n]; v++ {
 			for o := 0; o < orders[n]; o++ {
 				t = append(t, scriptCase{n, v, o})
@@ -142,13 +142,20 @@ func runScripted(res *fw.Result, rng *rand.Rand, c scriptCase, k int, label stri
 		v = "boom" + v
 	case c.num == 2 && c.variant == 1, c.num == 5 && c.variant == 2:
 		v, limiter = "lim"+v, true
-	case c.num == 3 && c.variant == 1:
+	case c.num == 3 && c.variant == 1, c.num == 16 && c.variant == 1:
 		limiter = true
 	}
-	sc := newScenario(res, label, limiter, 256)
+	maxConc := 256
+	if c.num == 16 {
+		maxConc = 1
+		if c.variant == 2 {
+			maxConc = 2
+		}
+	}
+	sc := newScenario(res, label, limiter, maxConc)
 	w, ctl := sc.w, sc.ctl
 	g := w.dsGate
-	if limiter {
+	if limiter && c.num != 16 {
 		g = w.limGate
 	}
 	// participants with one key (inbound layer), or one fetch in different operations (subgraph layer)
@@ -400,6 +407,71 @@ func runScripted(res *fw.Result, rng *rand.Rand, c scriptCase, k int, label stri
 				sc.waitDone(L)
 				sc.release(ptFollower, nf)
 			}
+		})
+	case 16:
+		// Saturated resolver: every MaxConcurrency slot (1; variant 2: 2) is held by an unrelated
+		// operation parked in its upstream call. The leader L is queued for a slot, followers join it,
+		// then L (variants 0-2; 1 with the rate limiter on) or one follower (variant 3) is cancelled
+		// while L is still queued; then the slots are released. Order 0: followers registered before
+		// the cancel; order 1: followers parked before registering, released after the cancel.
+		sc.run(func() {
+			var X []*participant
+			for i := 0; i < maxConc; i++ {
+				X = append(X, sc.add(fmt.Sprintf("X%d", i+1), reqSpec{Plan: "C", V: fmt.Sprintf("%sblock%d", v, i), Hdr: hdr}))
+			}
+			nf := k
+			if nf < 2 {
+				nf = 2
+			}
+			L, F := mk(nf)
+			g.setOpen(false)
+			sc.start(X...)
+			sc.waitBlocked(g, maxConc) // all slots taken
+			// all requests of the key start together: one becomes the leader and queues for a slot,
+			// the others arrive at the follower point; the hook events say who is who
+			group := append([]*participant{L}, F...)
+			if c.order == 1 {
+				ctl.arm(ptFollower, fkey, nf)
+			}
+			sc.start(group...)
+			if c.order == 0 {
+				sc.waitHits(ptFollower, fkey, int64(nf))
+				sc.settle()
+			} else {
+				sc.waitParked(ptFollower, nf)
+			}
+			isFollower := map[int]bool{}
+			for _, e := range ctl.snapshotEvents() {
+				if e.point == ptFollower {
+					isFollower[e.pid] = true
+				}
+			}
+			var leader, follower *participant
+			for _, q := range group {
+				if !isFollower[q.id] {
+					if leader != nil {
+						sc.abort("script-precondition: the leader of the group could not be told from the hook events")
+					}
+					leader = q
+				} else if follower == nil {
+					follower = q
+				}
+			}
+			if leader == nil || follower == nil {
+				sc.abort("script-precondition: the leader of the group could not be told from the hook events")
+			}
+			if c.variant == 3 {
+				sc.cancel(follower)
+			} else {
+				sc.doCancel(leader, siteQueue)
+				ctl.note("cancel:leader=" + leader.name)
+			}
+			sc.settle()
+			if c.order == 1 {
+				sc.release(ptFollower, nf)
+				sc.settle()
+			}
+			sc.openGate(g)
 		})
 	case 14:
 		// identical mutations, concurrently: every one of them reaches the upstream
